@@ -5,26 +5,31 @@ From Nitro Require Import Base.Bytes Log.LogModel.
 Import ListNotations.
 Local Open Scope list_scope.
 
-(* a filter expression is a boolean formula over "threshold k <= severity" *)
-Fixpoint holds (th : ktable) (f : fexpr) (sv : sev) : bool :=
+(* a filter expression is a boolean formula over "threshold k <= severity" and "the statement's tag is / is not t";
+   sv and tg are the severity and the tag OF THE STATEMENT (the record that would be delivered) *)
+Fixpoint holds (th : ktable) (f : fexpr) (sv : sev) (tg : str) : bool :=
   match f with
   | FNull => true
   | FThr k => rank (th k) <=? rank sv
-  | FAnd a b => holds th a sv && holds th b sv
-  | FOr a b => holds th a sv || holds th b sv
-  | FNot a => negb (holds th a sv)
+  | FAnd a b => holds th a sv tg && holds th b sv tg
+  | FOr a b => holds th a sv tg || holds th b sv tg
+  | FNot a => negb (holds th a sv tg)
+  | FTag accept t => if accept then str_eqb tg t else negb (str_eqb tg t)
   end.
 
 (* compile-time gate: the statement's severity is at or above the compile-time minimum *)
 Definition gate_open (min sv : sev) : bool := rank min <=? rank sv.
 
-(* a statement is enabled iff the gate is open and the runtime filter expression accepts its severity under the
-   thresholds configured for ITS logger's record type *)
-Definition enabled (min : sev) (th : thresholds) (lg : logger) (sv : sev) : bool :=
-  gate_open min sv && holds (th (lg_rec lg)) (lg_filter lg) sv.
-
 (* the tag a record carries: the tag argument read as a C string, empty when there is none *)
 Definition tag_text (tag : option str) : str := match tag with None => [] | Some t => cstr t end.
+(* … as far as the logger's record type has a tag attribute at all *)
+Definition rec_tag (lg : logger) (tag : option str) : str := if lg_tagged lg then tag_text tag else [].
+
+(* a statement is enabled iff the gate is open and the runtime filter expression accepts its severity AND ITS TAG under the
+   thresholds configured for ITS logger's record type *)
+Definition enabled (min : sev) (th : thresholds) (lg : logger) (sv : sev) (tag : option str) : bool :=
+  gate_open min sv && holds (th (lg_rec lg)) (lg_filter lg) sv (rec_tag lg tag).
+
 
 (* the message: everything streamed, in order — up to an item that makes the std::stringstream fail (a null const char*, …):
    the standard stream writes nothing from then on.  bad: has the stream already failed *)
@@ -41,8 +46,6 @@ Fixpoint bad_after (bad : bool) (its : list item) : bool :=
 Definition calls_of (its : list item) : list nat :=
   flat_map (fun it => match it with ICall _ id _ => [id] | _ => [] end) its.
 
-(* … as far as the logger's record type has a tag attribute at all *)
-Definition rec_tag (lg : logger) (tag : option str) : str := if lg_tagged lg then tag_text tag else [].
 
 Definition delivered (lg : logger) (sv : sev) (tag : option str) (its : list item) : record :=
   mkRecord sv (rec_tag lg tag) (message its).
@@ -54,7 +57,7 @@ Definition delivery (cfg : config) (lg : logger) (sv : sev) (r : record) : list 
 (* THE SPEC of one statement (either syntactic form) *)
 Definition spec_stmt (cfg : config) (th : thresholds) (lg : logger) (sv : sev) (tag : option str)
            (its : list item) : list event :=
-  if enabled (c_min cfg) th lg sv
+  if enabled (c_min cfg) th lg sv tag
   then map Call (calls_of its) ++ delivery cfg lg sv (delivered lg sv tag its)
   else [].
 
@@ -85,7 +88,7 @@ Definition spec_op (cfg : config) (sw : sworld) (o : op) : sworld * list event :
   | OOpen v lg sv tag =>
       let '(sw1, ev) := spec_close cfg sw v in
       (mkSW (s_th sw1) (set_lslot (s_slots sw1) v
-              (Some (mkL lg sv (rec_tag lg tag) (enabled (c_min cfg) (s_th sw1) lg sv) [] false))), ev)
+              (Some (mkL lg sv (rec_tag lg tag) (enabled (c_min cfg) (s_th sw1) lg sv tag) [] false))), ev)
   | OPut v it =>
       match s_slots sw v with
       | None => (sw, [])
@@ -141,7 +144,7 @@ Fixpoint arrivals (min : sev) (th : thresholds) (l : list sitem) : list (logger 
   | [] => []
   | SSet rc k s :: rest => arrivals min (set_threshold th rc k s) rest
   | SStmt _ lg sv tag its :: rest =>
-      (if enabled min th lg sv then [(lg, delivered lg sv tag its)] else []) ++ arrivals min th rest
+      (if enabled min th lg sv tag then [(lg, delivered lg sv tag its)] else []) ++ arrivals min th rest
   end.
 
 (* the records the formatter saw, and the (severity, text) pairs member i of the sequence received, in order of arrival *)
